@@ -9,6 +9,11 @@
 
 use lasso_verif_harness::conc::{self, RunOpts};
 use std::process::ExitCode;
+
+/// Every allocation of the process goes through the tracking allocator (monitor of C04's
+/// allocation discipline, see `talloc`)
+#[global_allocator]
+static ALLOC: lasso_verif_harness::talloc::TrackingAlloc = lasso_verif_harness::talloc::TrackingAlloc;
 use std::time::Duration;
 
 fn usage() -> ExitCode {
